@@ -706,9 +706,49 @@ class C15Engine(gcheck.GEngine):
                 self.families.setdefault(fam, []).append(jid)
             else:
                 self.others.append(jid)
+        # I15.0: jobs that differ only in the assignment of the directory options: when one of them
+        # runs, all of them must
+        # (Whether a library can be wrapped for a language at all is not C15's business: only jobs with
+        # the same library and the same flag vector are compared, i.e. the complete sweep.)
+        self.family_failures = []
+
+        def sweep_key(jid):
+            parts = jid.split("/")
+            if parts[0] != "c15sweep" or len(parts) != 3:
+                return None
+            base = parts[1].split("-", 1)[1].rsplit("-", 1)[0]
+            return (base, parts[2])
+
+        runs = {}
+        for jid in self.targets:
+            k = sweep_key(jid)
+            if k:
+                runs.setdefault(k, []).append(jid)
+        for jid in self.poisons:
+            k = sweep_key(jid)
+            if k and runs.get(k) and jid in self.rejected_goldens:
+                self.family_failures.append((self.jobs[jid], self.rejected_goldens[jid][0], len(runs[k])))
         # the invariants are first applied to every admitted job run alone
         if not self.args.admitted:
             self.check_goldens()
+
+    def process_failures(self, reporter):
+        gcheck.GEngine.process_failures(self, reporter)
+        seen = set()
+        for j, g1, nsib in getattr(self, "family_failures", []):
+            m = j.meta.get("c15", {})
+            sig = "I15.0-run-fails:%s:%s:%s" % (m.get("dirpat"), g1["status"], j.id.split("/")[0])
+            if sig in seen:
+                continue
+            seen.add(sig)
+            rp = report.write_replay(self.prop, "%s-runfails-%s" % (self.tier, gcheck.digest_obj(j.id)[:10]), {
+                "property": self.prop, "seed": self.args.seed, "class": ["I15.0-run-fails", ""], "signature": sig,
+                "must_succeed": True, "job": j.to_json(), "hashseed": self.seeds.hashseed("golden", j.id, 1),
+                "status": g1["status"], "message": (g1.get("message") or "")[-400:],
+                "siblings_that_run": nsib})
+            reporter.add(sig, rp, "%s fails (%s) although %d jobs with the same library and flags, other "
+                                  "directory options, run: %s" % (j.id, g1["status"], nsib,
+                                                                  (g1.get("message") or "")[-160:]))
 
     def check_goldens(self):
         """Every admitted job's golden run must itself satisfy I15.1-I15.5; failures are turned
